@@ -447,19 +447,22 @@ theorem cleaner_paths_to_refs (pre post : Str) (segs : List Str)
 /-- `\n` separates paths; the characters the rewriting introduces are not line boundaries (table facts) -/
 theorem nl_delim : isDelim '\n' = true := by decide +kernel
 
-/-- **cleaner_end_to_end** — `ErrorCleaner.odk_validate` works line by line.  For every diagnostic given as lines
-(joined by `\n`; no line contains a line boundary; the text starts and ends with a non-blank character, i.e. it is
-already stripped; not the launcher's jarfile message): the final message is the `\n`-join of the lines, each
+/-- **cleaner_end_to_end_padded** — `ErrorCleaner.odk_validate` works line by line.  For every diagnostic given as
+lines (joined by `\n`; no line contains a line boundary; the first line starts and the last line ends with a
+non-blank character) surrounded by ANY amount of blank characters (what `strip()` removes: the trailing newline java
+prints, indentation, …); not the launcher's jarfile message: the final message is the `\n`-join of the lines, each
 rewritten by the path substitution *on its own*, neighbouring duplicates dropped, stack lines dropped and exception
 names deleted.  Together with `cleaner_paths_to_refs` (applied to any line) and `cleaner_no_java_noise` this is the
 statement about the final message: `strip`, `splitlines` and `join` neither merge, split nor lose lines. -/
-theorem cleaner_end_to_end (ls : List Str) (hne : ls ≠ [])
+theorem cleaner_end_to_end_padded (ws1 ws2 : Str) (ls : List Str) (hne : ls ≠ [])
+    (hws1 : ∀ c ∈ ws1, pyIsSpace c = true) (hws2 : ∀ c ∈ ws2, pyIsSpace c = true)
     (hlb : ∀ l ∈ ls, ∀ c ∈ l, isLineBreak c = false)
     (hhead : ∃ c r rest, ls = (c :: r) :: rest ∧ pyIsSpace c = false)
     (hlast : ∃ x e, ls.getLast hne = x ++ [e] ∧ pyIsSpace e = false)
-    (hjar : isInfix jarfilePhrase (joinWith ['\n'] ls) = false) :
-    odkValidate (joinWith ['\n'] ls) = joinWith ['\n'] ((dedupAdj (ls.map subPaths)).filterMap removeJava) := by
-  have hsub : subPaths (joinWith ['\n'] ls) = joinWith ['\n'] (ls.map subPaths) := subPaths_join '\n' nl_delim ls
+    (hjar : isInfix jarfilePhrase (ws1 ++ joinWith ['\n'] ls ++ ws2) = false) :
+    odkValidate (ws1 ++ joinWith ['\n'] ls ++ ws2) = joinWith ['\n'] ((dedupAdj (ls.map subPaths)).filterMap removeJava) := by
+  have hsub : subPaths (ws1 ++ joinWith ['\n'] ls ++ ws2) = ws1 ++ joinWith ['\n'] (ls.map subPaths) ++ ws2 := by
+    rw [subPaths_pad ws1 _ ws2 hws1 hws2, subPaths_join '\n' nl_delim ls]
   have hms_ne : ls.map subPaths ≠ [] := by simpa using hne
   -- the last rewritten line ends with the last character of the text or with `}`
   obtain ⟨x, e, hl, he⟩ := hlast
@@ -481,8 +484,8 @@ theorem cleaner_end_to_end (ls : List Str) (hne : ls ≠ [])
   obtain ⟨r2, hr2⟩ := joinWith_head ['\n'] d r1 (rest.map subPaths)
   have hhd : joinWith ['\n'] (ls.map subPaths) = d :: r2 := by
     rw [hls, List.map_cons, hr1, hr2]
-  have hstrip : strip (joinWith ['\n'] (ls.map subPaths)) = joinWith ['\n'] (ls.map subPaths) :=
-    strip_id _ d e' r2 (pre ++ z) hhd (by rw [hpre, hlastm]; simp [List.append_assoc]) hsd hsp'
+  have hstrip : strip (ws1 ++ joinWith ['\n'] (ls.map subPaths) ++ ws2) = joinWith ['\n'] (ls.map subPaths) :=
+    strip_pad ws1 _ ws2 d e' r2 (pre ++ z) hws1 hws2 hhd (by rw [hpre, hlastm]; simp [List.append_assoc]) hsd hsp'
   have hnb : ∀ m ∈ ls.map subPaths, ∀ x ∈ m, isLineBreak x = false := by
     intro m hm x hx
     simp only [List.mem_map] at hm
@@ -495,7 +498,23 @@ theorem cleaner_end_to_end (ls : List Str) (hne : ls ≠ [])
     exact this x hx
   have hsplit : splitlines (joinWith ['\n'] (ls.map subPaths)) = ls.map subPaths :=
     splitlines_join _ hms_ne hnb (by rw [hlastm]; simp)
-  simp [odkValidate, hjar, cleanLines, cleanupErrors, hsub, hstrip, hsplit]
+  simp only [odkValidate, hjar, Bool.false_eq_true, ↓reduceIte, cleanLines, cleanupErrors, hsub, hstrip, hsplit]
+
+
+/-- the already stripped case of `cleaner_end_to_end_padded` -/
+theorem cleaner_end_to_end (ls : List Str) (hne : ls ≠ [])
+    (hlb : ∀ l ∈ ls, ∀ c ∈ l, isLineBreak c = false)
+    (hhead : ∃ c r rest, ls = (c :: r) :: rest ∧ pyIsSpace c = false)
+    (hlast : ∃ x e, ls.getLast hne = x ++ [e] ∧ pyIsSpace e = false)
+    (hjar : isInfix jarfilePhrase (joinWith ['\n'] ls) = false) :
+    odkValidate (joinWith ['\n'] ls) = joinWith ['\n'] ((dedupAdj (ls.map subPaths)).filterMap removeJava) := by
+  have := cleaner_end_to_end_padded [] [] ls hne (by simp) (by simp) hlb hhead hlast (by simpa using hjar)
+  simpa using this
+
+/-- **cleaner_blank** — a diagnostic made of blanks only (or empty) is reported as the empty message -/
+theorem cleaner_blank (ws : Str) (h : ∀ c ∈ ws, pyIsSpace c = true) (hjar : isInfix jarfilePhrase ws = false) :
+    odkValidate ws = [] := by
+  simp [odkValidate, hjar, cleanLines, cleanupErrors, subPaths_blank ws h, strip_blank ws h, splitlines, dedupAdj, joinWith]
 
 /-- **cleaner_end_to_end_path** — the two-line shape of real ODK Validate output, with the cited node rewritten:
 a diagnostic whose first line contains a delimited path (as in `cleaner_paths_to_refs`) is reported with `${sn}`
@@ -642,6 +661,9 @@ example : cleanupErrors "a\na\nb\na".toList = ["a".toList, "b".toList, "a".toLis
 /-- the end-to-end statement on concrete data: a text that starts with a path and ends inside one -/
 example : odkValidate (joinWith ['\n'] ["Error in [/data/g/first-name] now".toList, "\tat a.B(B.java:1)".toList, "Result: Invalid".toList])
     = "Error in [${first-name}] now\nResult: Invalid".toList := by decide +kernel
+example : odkValidate (" \n".toList ++ joinWith ['\n'] ["/data/g/q1 depends on".toList, "/data/g/q2".toList] ++ "\n\n".toList)
+    = "${q1} depends on\n${q2}".toList := by decide +kernel
+example : odkValidate " \n\t ".toList = [] := by decide +kernel
 example : odkValidate (joinWith ['\n'] ["/data/g/q1 depends on".toList, "/data/g/q2".toList])
     = "${q1} depends on\n${q2}".toList := by decide +kernel
 /-- the hypotheses of `cleaner_paths_to_refs` on concrete data -/
